@@ -55,6 +55,11 @@ def source_bundle(har, seqno, payload, ext_blocks=(), flags=0, pri_crc=0, pay_cr
     ctr.bundle.primary = PrimaryBlock(**kwargs)
     blocks = []
     for (ix, blk) in enumerate(ext_blocks):
+        if blk.get('layer') == 'hopcount':
+            # built the way the agent builds its own extension blocks: a typed layer, the type code implied by the layer binding
+            from bp.encoding import HopCountBlock
+            blocks.append(CanonicalBlock(block_num=2 + ix, block_flags=blk.get('flags', 0), crc_type=blk.get('crc_type', 0)) / HopCountBlock(limit=30, count=2))
+            continue
         blocks.append(CanonicalBlock(type_code=blk['type'], block_num=2 + ix, block_flags=blk.get('flags', 0), crc_type=blk.get('crc_type', 0), btsd=blk['btsd']))
     blocks.append(CanonicalBlock(type_code=1, block_num=1, crc_type=pay_crc, btsd=payload))
     ctr.bundle.blocks = blocks
